@@ -18,7 +18,7 @@ RULE = ('Wallets: HD / single-key / 2-of-2 and 2-of-3 multisig x legacy, segwit,
         'confirmed total / grand total, slightly above total), fee in {None, int incl. 0 and absurd, low/normal/high}, '
         '0..3 change outputs, min_confirms, max_utxos, explicit input_arr, sweep (single target or list with 0-amount '
         'remainder), replace_by_fee + bumpfee. Non-trivial [bitcoinlib_test: requests may be broadcast and interleaved with utxos_update(); consumed outpoints may neither be listed nor selected again] = >=2 inputs selected, or a change split, or sweep, or '
-        'bumpfee, or a dust-boundary UTXO in the set; distinct by (wallet config, utxo set, request). [a third of the hd wallets have another default network and make their transactions from an account on a second network, with explicit fees between the two networks\' rate limits]')
+        'bumpfee, or a dust-boundary UTXO in the set; distinct by (wallet config, utxo set, request). [a third of the hd wallets have another default network and make their transactions from an account on a second network, with explicit fees between the two networks\' rate limits; a quarter of the create/send requests name their inputs (both tuple forms, repeated picks): insufficient named inputs must fail, no outpoint twice]')
 ASSUMPTIONS = ['SQLite back-end only', 'offline bitcoinlib_test provider; other networks with explicit integer fees and '
                'anti_fee_sniping=False', 'real-rate limits are widened by 25% (size is estimated before signing) plus '
                'the dust amount the library documents to fold into the fee']
